@@ -108,9 +108,33 @@ def run(tier):
     return chk.finish()
 
 
+def python_wrappers(chk, rust_items):
+    """the Python classes are number types too: their methods for the given Rust items forward to the item of the same meaning
+    (python configuration; used by the function properties C01 / C09 / C15 for their own methods)"""
+    try:
+        F = facts.load("python")
+    except facts.BuildFailed as ex:
+        chk.undecide("python-wrappers", "python configuration does not build: %s" % ex)
+        return
+    classes = py_classes(F)
+    only = {py for py, rust in METHODS.items() if rust in rust_items}
+    n0 = chk.analysed.get("forwarding methods", 0)
+    for cn, info in sorted(classes.items()):
+        method_forwarding(chk, F, cn, info, only)
+    chk.floor("forwarding methods", chk.analysed.get("forwarding methods", 0) - n0, 56 * len(only))
+
+
 def one_class(chk, F, cn, info):
     ms = info["methods"]
+    method_forwarding(chk, F, cn, info, None)
+    one_class_rest(chk, F, cn, info)
+
+
+def method_forwarding(chk, F, cn, info, only):
+    ms = info["methods"]
     for py, rust in METHODS.items():
+        if only is not None and py not in only:
+            continue
         bs = ms.get(py, [])
         key = "method|%s|%s" % (cn, py)
         if len(bs) != 1:
@@ -130,6 +154,10 @@ def one_class(chk, F, cn, info):
         chk.ob(key, ok, "Python %s forwards to the Rust item %s on self.0 with the arguments in order and nothing else" % (py, rust),
                body_loc(F, b), found=found, required="self.0.%s(%s).into()" % (rust, ", ".join(p.get("name", "?") for p in b["params"][1:])),
                nontrivial=(py != rust))
+
+
+def one_class_rest(chk, F, cn, info):
+    ms = info["methods"]
     # sin_cos
     bs = ms.get("sin_cos", [])
     if len(bs) == 1:
